@@ -1,7 +1,7 @@
 (* C04 - acks reach each source in exactly read order, no gaps, no repeats: property theorems only. *)
 From Verif Require Import Multi.Trace Multi.TraceProofs Multi.Accept Multi.AcceptProofs
   Multi.Multi Multi.MultiProofs Multi.SysV2 Multi.SysV2Proofs
-  Stream.SysV1 Stream.SysV1Proofs Stream.Parallel.
+  Stream.SysV1 Stream.SysV1Proofs Stream.Parallel Multi.Retry Multi.RetryProofs.
 
 Theorem C04_monitor_is_property : forall t log, Mon_C04 t log = true <-> C04_holds t log.
 Proof. exact mon04_sound. Qed.
@@ -51,3 +51,36 @@ Theorem C04_parallel_preserves_order : forall acts,
     j < njobs (par_run acts) /\ outcome_of (par_run acts) j = Some OPass.
 Proof. exact parallel_preserves_order. Qed.
 Print Assumptions C04_parallel_preserves_order.
+
+(* ---------- arch-v2: the tainted-batch loop with retry groups (short / holed processor replies) ---------- *)
+(* whatever every call of every task of the chain answers and whichever retry bounds are set: a
+   pass releases (Worker.Ack / Worker.Nack) a prefix of the batch in batch order, nothing twice,
+   nothing skipped - a retried record in front of finished ones included -, and a pass that
+   returned nil released the whole batch *)
+Theorem C04_retry_releases_in_batch_order : forall e maxA maxS fuel T ids,
+  prefix_of (released (fst (pass e maxA maxS AtCursor fuel T ids))) ids /\
+  (snd (pass e maxA maxS AtCursor fuel T ids) = true ->
+   released (fst (pass e maxA maxS AtCursor fuel T ids)) = ids).
+Proof. exact retry_releases_in_batch_order. Qed.
+Print Assumptions C04_retry_releases_in_batch_order.
+
+(* every single call is for the run of positions that starts where the previous one ended: the
+   atomicity SysV2's linear-path actions ADAck / ADNackW take for granted *)
+Theorem C04_retry_releases_contiguous : forall e maxA maxS fuel T a n,
+  contig a (map rel_ids (fst (pass e maxA maxS AtCursor fuel T (seq a n)))).
+Proof. exact retry_releases_contiguous. Qed.
+Print Assumptions C04_retry_releases_contiguous.
+
+(* non-vacuity: filter(p2) -> capped(1 per call) -> destination on p0 p1 p2 p3 *)
+Example C04_retry_demo :
+  pass demo_env 100 3 AtCursor 20 3 [0; 1; 2; 3] =
+  ([Rel true [0]; Rel true [1]; Rel true [2]; Rel true [3]], true).
+Proof. exact retry_at_cursor_demo. Qed.
+
+(* running the retry groups after the loop instead of at the cursor breaks the property *)
+Theorem C04_deferred_retry_refuted :
+  exists e maxA maxS fuel T ids,
+    snd (pass e maxA maxS Deferred fuel T ids) = true /\
+    ~ prefix_of (released (fst (pass e maxA maxS Deferred fuel T ids))) ids.
+Proof. exact deferred_retry_refuted. Qed.
+Print Assumptions C04_deferred_retry_refuted.
